@@ -26,6 +26,8 @@ for f in sorted(glob.glob(V + "/.build/seedm*.out") + glob.glob(V + "/.build/see
             if m:
                 cur["violations"].append(m.group(2))
 MISS_NOTES = {
+ "C09-E": "first run (quick tier as committed): exit 2, not a violation: the change rewrites Bvd == Bvd on top of a slice comparison, whose byte-wise memcmp loop exceeds the unwind bound of the seven Bvd x Bvd harnesses, so they came back 'unwind bound too small' (inconclusive), not refuted -> c09_q_ordu_bvd1_bvd2 / c09_q_ordu_bvd2_bvd3 added (same oracle, unwind 10 / 18); the second run listed here is those two harnesses only (VERIF_ONLY=c09_q_ordu) against a scratch copy with the change: both refuted, counterexamples reproduce natively",
+ "C12-E": "would have been missed by the quick and the thorough tier as committed before this round: the change is exact for every vector of up to 1024 bits and no scope of any property reached past 256 bits -> c12_q_wide_bvd17_to_f64x17 / _into_f64x17 / _to_f32x34 added before the change was first run (1088-bit Bvd source, word-by-word oracle); the run listed here already contains them",
  "C02-C": "first run: exit 2, not a violation: the change makes the division loop run past the harness's unwind bound, which the driver then reported as 'unwind bound too small' -> the driver now replays such traces natively (violation iff the native run fails) and c02_q_divbig_* were added",
  "C02-D": "caught on its first full run, but only because c02_q_divq2ops_f8x1_f16x1 (the / and % operator forms on one-word vectors of different word types) had been added minutes before while preparing for this batch; the quick tier as committed before would have missed it (div8 x Bvf<u16,1> is thorough-only)",
  "C10-C": "the change breaks Bvf::resize (stale word after shrinking to a word boundary), which then makes Hash disagree with Eq; C10's harnesses start from Inv states and never resize, so C10 itself exits 0 - it is caught by C07 (and C03), which own that behaviour",
